@@ -38,12 +38,14 @@ def register(prop):
          "exactly once; nobody is suspected (C04 monitor), every buffer on the wire opens under the sender's current primary key (C15 tap); in-flight traffic drains between phases only",
          assumptions=["a decryption counts only if its key stays installed for its whole duration (RemoveKey of such a key is skipped by the executor)"])
 
-    prop("C01", [dict(scn="C01", quick=20000, thorough=1500000, wall_quick=100, wall_thorough=1500)],
+    prop("C01", [dict(scn="C01", quick=20000, thorough=1500000, wall_quick=100, wall_thorough=1500), dict(scn="C02I", quick=800, thorough=60000, wall_quick=60, wall_thorough=600, only=["rank-regression", "record-vanished"])],
          "bench mode: one real node, prior view of member x built from real claims (absent/alive/suspect/dead/left x incarnation in {0,1,2,5,2^31,2^32-3} x address x age vs "
          "DeadNodeReclaimTime), then 1-12 claims (alive/suspect/dead/leave/push-pull entries in all four states; incarnation base-2..base+2; same/other address/port; "
          "meta; valid/short/invalid version vectors; senders incl. the observer and x) delivered by direct call, UDP packet, inside a compound, compressed(+CRC) through the "
          "real ingest pipeline; exact per-claim oracle (stale => record, Members(), events, queued broadcast, timer all bit-identical); non-trivial = the sequence contained "
-         "both a stale and a non-stale claim; distinct = distinct (prior, claim sequence) tuples",
+         "both a stale and a non-stale claim; distinct = distinct (prior, claim sequence) tuples. "
+         "C02I (cluster mode): the node's own record under UpdateNode raced by forged suspect/dead/stale-alive claims about itself, interleaved by the scheduler at the "
+         "update/alive/suspect/dead yield sites, with the per-step rank-monotonicity monitor on every record (own record included)",
          assumptions=["claims about the observer itself are C02's subject and not generated here"])
 
     prop("C04", [dict(scn="C04", quick=300, thorough=30000, wall_quick=120, wall_thorough=1800)],
@@ -51,23 +53,27 @@ def register(prop):
          "(chain/star/mutual), UpdateNode, user broadcasts/messages, graceful Leave of some members (leavers keep running); invariant at every scheduler "
          "step on every node: no non-leaver record suspect/dead, no suspicion timer, no suspect/dead broadcast queued about a non-leaver, no leave event "
          "for a non-leaver, health score 0; non-trivial = >=2 nodes joined and probes ran; " + FP)
-    prop("C05", [dict(scn="C05", quick=150, thorough=8000, wall_quick=150, wall_thorough=2400)],
+    prop("C05", [dict(scn="C05", quick=150, thorough=8000, wall_quick=150, wall_thorough=2400), dict(scn="C02I", quick=800, thorough=60000, wall_quick=60, wall_thorough=600, only=["update-lost"])],
          "cluster plans: 3-8 real nodes; faulty phase with loss/dup/delay/heavy-tail, stream cut/stall/refuse, timed partitions (one-way, UDP-only), crash, "
          "same-address restart with reset incarnation and new meta, graceful leave, slow node, UpdateNode; faults stop at T_f; precondition (lists-graph connected) "
          "evaluated from the nodes' tables; oracle: Members() of every live node == live set with owners' latest meta, nobody suspect, within W; "
-         "non-trivial = precondition true, >=2 live nodes, >=1 fault fired; " + FP,
+         "non-trivial = precondition true, >=2 live nodes, >=1 fault fired. C02I (loss-free 2-4 node cluster): when every UpdateNode racing accusations/concurrent updates returned nil, "
+         "the node and all peers show the owner's latest metadata within the budget; " + FP,
          assumptions=["W = 3*B(C03) + K*PushPullInterval + GossipToTheDeadTime with ((n-2)/(n-1))^K < 1e-12 (random peer selection makes W a budget, not a protocol constant)"])
     prop("C07", [dict(scn="C07", quick=150, thorough=8000, wall_quick=120, wall_thorough=2400), dict(scn="C04", quick=100, thorough=5000, wall_quick=60, wall_thorough=900)],
          "the fault-rich cluster histories of C05 (crash/restart/leave/partitions/loss) and the healthy histories of C04 with a recording EventDelegate on every node: "
          "per-member pattern (join update* leave)*, replay of the log == set captured inside each callback (under the node lock) == Members() at every scheduler step "
          "incl. meta, callbacks never overlap; non-trivial as in C05/C04; " + FP)
 
-    prop("C02", [dict(scn="C02", quick=20000, thorough=1500000, wall_quick=100, wall_thorough=1500)],
+    prop("C02", [dict(scn="C02", quick=20000, thorough=1500000, wall_quick=100, wall_thorough=1500), dict(scn="C02I", quick=1500, thorough=150000, wall_quick=90, wall_thorough=1200, only=["self-not-alive", "incarnation-decreased", "rank-regression", "event-pattern", "event-members-mismatch", "event-set-mismatch", "event-concurrent"])],
          "bench mode: one real node accused by puppets: sequences of 1-10 suspect/dead/alive-about-self/push-pull entries (all four states) at incarnation own-1, own, own+1, "
          "own+k, 2^31, 2^32-3, same/different meta, valid/other/short/invalid version vectors, own/foreign address, via direct call, UDP packet, piggybacked on a ping, "
          "interleaved with UpdateNode and waits; after every step: lists itself alive, LocalNode sane, incarnation never decreases; must-refute class => incarnation "
          "strictly above the accusation, alive with exactly that incarnation queued, health +1 (clamped); below-own accusations change nothing; non-trivial = >=1 "
-         "refutation; distinct = distinct accusation sequences. Restarts with a lower incarnation than peers remember are exercised by C05's restart ops.",
+         "refutation; distinct = distinct accusation sequences. Restarts with a lower incarnation than peers remember are exercised by C05's restart ops. "
+         "C02I (cluster mode, 2-4 real nodes): 1-3 UpdateNode episodes (optionally two concurrent calls) on one node, each raced by 0-4 forged suspect/dead/stale-alive packets about that "
+         "node at own-1..own+5 placed -1ms..+100us around the call; the scheduler orders them at the update/alive/suspect/dead yield sites; per step: lists itself alive, incarnation "
+         "and own record never move backwards, events == Members(); at the end every UpdateNode has returned and, when all returned nil, the node and every peer show the latest metadata",
          assumptions=["alive-about-self from a foreign address, with a malformed/short version vector is in the may-ignore class (only the unconditional half is checked)",
                       "accusations at the largest representable incarnation are excluded by the statement"])
 
@@ -172,13 +178,14 @@ def register(prop):
          "entry (address, port, meta, 6-tuple of versions) equals what its owner announced; non-trivial = >=1 user message delivered; " + FP,
          assumptions=["C12 has no schedule in its quantifier: it is decided here by composing the complete real send and receive pipelines of real nodes through the simulated (fragmenting) transport under generated configurations"])
 
-    prop("C20", [dict(scn="C20", quick=300, thorough=30000, wall_quick=150, wall_thorough=2400)],
+    prop("C20", [dict(scn="C20", quick=300, thorough=30000, wall_quick=150, wall_thorough=2400), dict(scn="C02I", quick=1500, thorough=150000, wall_quick=90, wall_thorough=1200, only=["update-blocked", "goroutine-leak", "api-panic", "panic", "lock-deadlock"])],
          "cluster-interleave plans: 1-4 real nodes under light faults; 20-90 public API calls (Join, Leave x2, Shutdown x2, UpdateNode, Members, NumMembers, LocalNode, GetHealthScore, "
          "SendBestEffort, SendReliable, Ping, ProtocolVersion, user broadcasts) issued by concurrent simulated clients at PRNG instants over every lifecycle stage: joined, leaving (inside the "
          "Leave yield window), left, left-and-reaped (GossipToTheDeadTime 0.5-2 s so virtual time passes it plus a probe wrap), shut down; all yield sites active; oracles: no API panic "
          "(wrappers recover; a panic on a library goroutine kills the worker and is attributed), no call still blocked at the end, Leave within its timeout, second Leave/Shutdown no-ops, "
          "transport.Shutdown exactly once, later than one awareness-scaled probe interval after Shutdown returned: no goroutine of that instance alive, no packet/dial attempts beyond those of "
-         "explicit API calls, no membership callback; bubble exit without blocked library goroutines; non-trivial = >10 ops ran; " + FP,
+         "explicit API calls, no membership callback; bubble exit without blocked library goroutines; non-trivial = >10 ops ran. "
+         "C02I: UpdateNode (incl. two concurrent calls, timeout 0 = wait for the broadcast) raced by accusations about the node at the update/alive/suspect/dead yield sites: every call returns; " + FP,
          assumptions=["concurrent Leave/Leave and Shutdown/Shutdown are serialised by a harness-side channel gate instead of the library's leaveLock/shutdownLock: testing/synctest cannot treat a goroutine blocked on sync.Mutex as durably blocked, so two overlapping calls would stall the simulator; every other overlap (Leave vs Shutdown, API vs background) is real",
                       "Leave after Shutdown is never generated (documented panic)",
                       "the race detector is not used as an oracle (the scheduler's hand-offs create happens-before edges that hide races)"])
